@@ -13,6 +13,18 @@ package main
 // context.Context (vctx): all scripted cancellations happen synchronously inside these callbacks
 // on the SendBatch goroutine, so every case is deterministic except for Go's map iteration order,
 // which is observed and reported (the model takes it as an input).
+//
+// vctx wraps a real cancel context (Done/Value are the inner context's), so contexts that the code
+// under test derives from it (context.WithCancel, context.AfterFunc) are registered as children of
+// the inner context: cancellation reaches them synchronously and no watcher goroutine is started.
+// The probes behind Done()/Err() of the batch context act on harness state only (armed / inWait,
+// reset by every other callback) and ignore calls that are not made on the SendBatch goroutine
+// (e.g. a derived context's cancel function run by context.AfterFunc in its own goroutine).
+//
+// A call that is located while its region is unavailable AND its own context is done (done before
+// SendBatch, or cancelled at a wait in an earlier round) is expected to be given up on alone: for
+// it the harness neither cancels the batch context nor closes the client, and reports the location
+// outcome 'O' (model: locate = error (ownCtx id)); see onLocate.
 
 import (
 	"context"
@@ -21,9 +33,11 @@ import (
 	"io"
 	"log/slog"
 	"os"
+	"runtime"
 	"strconv"
 	"strings"
 	"sync"
+	"sync/atomic"
 	"time"
 
 	"github.com/tsuna/gohbase"
@@ -115,46 +129,50 @@ func (c *bCase) nIDs() int { return len(c.table) }
 // ---------------------------------------------------------------- contexts
 
 type vctx struct {
-	mu     sync.Mutex
-	done   chan struct{}
-	closed bool
-	err    error
-	run    *bRun // non-nil for the batch context
+	inner context.Context
+	stop  context.CancelFunc
+	err   error
+	run   *bRun // non-nil for the batch context
 }
 
-func newVctx(err error, run *bRun) *vctx { return &vctx{done: make(chan struct{}), err: err, run: run} }
+func newVctx(err error, run *bRun) *vctx {
+	in, stop := context.WithCancel(context.Background())
+	return &vctx{inner: in, stop: stop, err: err, run: run}
+}
 
-func (c *vctx) cancel() {
-	c.mu.Lock()
-	if !c.closed {
-		c.closed = true
-		close(c.done)
-	}
-	c.mu.Unlock()
-}
-func (c *vctx) isDone() bool {
-	c.mu.Lock()
-	defer c.mu.Unlock()
-	return c.closed
-}
+func (c *vctx) cancel()                     { c.stop() }
+func (c *vctx) isDone() bool                { return c.inner.Err() != nil }
 func (c *vctx) Deadline() (time.Time, bool) { return time.Time{}, false }
-func (c *vctx) Value(any) any               { return nil }
+
+// Value: the inner context answers the context package's private key, which makes vctx (also
+// behind a context.WithValue wrapper such as the span context) a cancelCtx parent for the stdlib.
+func (c *vctx) Value(k any) any { return c.inner.Value(k) }
 func (c *vctx) Done() <-chan struct{} {
 	if c.run != nil {
 		c.run.onCtxDone()
 	}
-	return c.done
+	return c.inner.Done()
 }
 func (c *vctx) Err() error {
 	if c.run != nil {
 		c.run.onCtxErr()
 	}
-	c.mu.Lock()
-	defer c.mu.Unlock()
-	if c.closed {
+	if c.inner.Err() != nil {
 		return c.err
 	}
 	return nil
+}
+
+// goid: the current goroutine's id ("goroutine 123 [running]:").
+func goid() uint64 {
+	var buf [40]byte
+	n := runtime.Stack(buf[:], false)
+	f := strings.Fields(string(buf[:n]))
+	if len(f) < 2 {
+		return 0
+	}
+	id, _ := strconv.ParseUint(f[1], 10, 64)
+	return id
 }
 
 // ---------------------------------------------------------------- wrappers
@@ -168,7 +186,16 @@ type vcall struct {
 	rcCount int // ResultChan() calls in that round
 }
 
-func (v *vcall) Context() context.Context { return v.own }
+func (v *vcall) Context() context.Context {
+	v.run.onCallCtx()
+	return v.own
+}
+
+// Key is what region location asks a call first: the harness learns which call is being located.
+func (v *vcall) Key() []byte {
+	v.run.onKey(v)
+	return v.Get.Key()
+}
 func (v *vcall) ResultChan() chan hrpc.RPCResult {
 	v.run.onResultChan(v)
 	return v.Get.ResultChan()
@@ -226,9 +253,28 @@ type bRun struct {
 	ctx    *vctx
 	vc     *gohbase.VerifClient
 	qlog   []qrec
-	armed  bool // cancel inside the next back-off sleep
+	armed  atomic.Bool // cancel inside the next back-off sleep
 	anom   []string
 	closed bool
+	gid    atomic.Uint64 // goroutine running SendBatch (0: not started)
+	// region location
+	locating *vcall          // the call region location last asked for its key
+	locTok   map[[2]int]byte // (round, call id) -> how a location that found the region unavailable ended
+}
+
+// onSendBatchGoroutine: is the caller the goroutine that runs SendBatch? (runtime.Stack is slow:
+// only asked when the answer matters, i.e. when a probe is about to act.)
+func (r *bRun) onSendBatchGoroutine() bool {
+	g := r.gid.Load()
+	return g != 0 && g == goid()
+}
+
+// the methods of a call are only used by the SendBatch goroutine (and, after the run, by multiView)
+func (r *bRun) onCallCtx() { r.armed.Store(false) }
+
+func (r *bRun) onKey(v *vcall) {
+	r.armed.Store(false)
+	r.locating = v
 }
 
 var errBatchCtx = errors.New("verif: batch context cancelled")
@@ -247,7 +293,7 @@ func (r *bRun) rd() *bRound {
 }
 
 func (r *bRun) onLocate(v *vinfo) <-chan struct{} {
-	r.armed = false
+	r.armed.Store(false)
 	if r.inWait {
 		r.inWait = false
 		r.round++
@@ -269,13 +315,30 @@ func (r *bRun) onLocate(v *vinfo) <-chan struct{} {
 		return nil
 	}
 	v.RegionInfo.MarkUnavailable()
-	if fail == 'L' {
+	lc := r.locating
+	tok := fail
+	switch {
+	case r.ctx.isDone():
+		// the batch context was cancelled at an earlier location of this round: the wait ends at once
+		tok = 'C'
+	case lc != nil && lc.own.isDone():
+		// only this call has given up: its own context ends the wait; the batch goes on
+		tok = 'O'
+	case fail == 'L':
 		if !r.closed {
 			r.closed = true
 			r.vc.Client().Close()
 		}
-	} else {
+	default:
 		r.ctx.cancel()
+	}
+	if lc != nil {
+		if r.locTok == nil {
+			r.locTok = map[[2]int]byte{}
+		}
+		r.locTok[[2]int{r.round, lc.id}] = tok
+	} else {
+		r.anomaly("locate-without-key")
 	}
 	return v.RegionInfo.AvailabilityChan()
 }
@@ -330,7 +393,7 @@ func (r *bRun) deliver(v *vcall, a bAns) {
 }
 
 func (r *bRun) onQueue(s *vserver, rpcs []hrpc.Call) {
-	r.armed = false
+	r.armed.Store(false)
 	r.inWait = true
 	rd := r.rd()
 	rec := qrec{round: r.round, srv: s.id, calls: append([]hrpc.Call(nil), rpcs...)}
@@ -354,7 +417,7 @@ func (r *bRun) onQueue(s *vserver, rpcs []hrpc.Call) {
 }
 
 func (r *bRun) onResultChan(v *vcall) {
-	r.armed = false
+	r.armed.Store(false)
 	if v.rcRound != r.round {
 		v.rcRound = r.round
 		v.rcCount = 0
@@ -384,26 +447,33 @@ func (r *bRun) onRegion(v *vcall) {
 	}
 }
 
-// onCtxErr: before the context is cancelled, Err() is only evaluated by the check after a wait.
+// onCtxErr: the check after a wait is the first evaluation of Err() on the SendBatch goroutine
+// while a wait is on (inWait is reset by the next location) and the context is not yet cancelled.
 func (r *bRun) onCtxErr() {
 	if r.ctx.isDone() {
 		return
 	}
 	rd := r.rd()
-	if rd == nil || !r.inWait {
+	if rd == nil || !r.inWait || (rd.cancel != 'a' && rd.cancel != 's') || !r.onSendBatchGoroutine() {
 		return
 	}
 	switch rd.cancel {
 	case 'a':
 		r.ctx.cancel()
 	case 's':
-		r.armed = true
+		r.armed.Store(true)
 	}
 }
 
+// onCtxDone: armed (by the check after the wait) and not disarmed by any other callback since
+// (a call's Context()/Key()/ResultChan(), a location, a QueueBatch): the SendBatch goroutine asks
+// for Done() inside sleepAndIncreaseBackoff. Done() is also called by other goroutines (a derived
+// context that is cancelled by context.AfterFunc asks its parent for Done() to unregister).
 func (r *bRun) onCtxDone() {
-	if r.armed {
-		r.armed = false
+	if !r.armed.Load() || !r.onSendBatchGoroutine() {
+		return
+	}
+	if r.armed.CompareAndSwap(true, false) {
 		r.ctx.cancel()
 	}
 }
@@ -417,6 +487,7 @@ type bObs struct {
 	ords  [][]int // per round: servers in QueueBatch order
 	alive []bool
 	anom  []string
+	loc   map[[2]int]byte // (round, id) -> observed end of a location that found the region unavailable
 }
 
 func classifyErr(err error, run *bRun) string {
@@ -434,7 +505,9 @@ func classifyErr(err error, run *bRun) string {
 		}
 		return s[i+4 : i+j]
 	}
-	if err == errBatchCtx {
+	if err == errBatchCtx || err == context.Canceled {
+		// context.Canceled: the error of a context derived from the batch context (the merged
+		// context region location waits on); findClients stores it only when the batch context is done
 		return "C"
 	}
 	if err == gohbase.ErrClientClosed {
@@ -550,12 +623,15 @@ func runBatchCase(c *bCase) (obs bObs) {
 			if p := recover(); p != nil {
 				rt.panic = p
 			}
+			run.gid.Store(0)
 			ch <- rt
 		}()
+		run.gid.Store(goid())
 		rt.res, rt.ok = run.vc.Client().SendBatch(run.ctx, batch)
 	}()
 	var rt ret
 	hang := false
+	returned := true
 	select {
 	case rt = <-ch:
 	case <-time.After(1500 * time.Millisecond):
@@ -567,6 +643,7 @@ func runBatchCase(c *bCase) (obs bObs) {
 		select {
 		case rt = <-ch:
 		case <-time.After(1500 * time.Millisecond):
+			returned = false
 		}
 	}
 	obs.ms = time.Since(t0).Milliseconds()
@@ -611,6 +688,9 @@ func runBatchCase(c *bCase) (obs bObs) {
 	}
 	for _, v := range run.calls {
 		obs.alive = append(obs.alive, !v.own.isDone())
+	}
+	if returned {
+		obs.loc = run.locTok
 	}
 	return obs
 }
@@ -683,7 +763,13 @@ func (c *bCase) line(o bObs) string {
 			case rd.regSrv[c.region[id]] >= 0:
 				locs = append(locs, strconv.Itoa(rd.regSrv[c.region[id]]))
 			default:
-				locs = append(locs, string(rd.locFail))
+				// unavailable region: what the harness did when the call was located in this round
+				// (own context done: 'O'); a call that was not located in this round: the script
+				if t, ok := o.loc[[2]int{r, id}]; ok {
+					locs = append(locs, string(t))
+				} else {
+					locs = append(locs, string(rd.locFail))
+				}
 			}
 			a := rd.ans[id]
 			switch a.kind {
@@ -1021,6 +1107,109 @@ func genLocate(cases *[]*bCase) {
 	}
 }
 
+// genOwnLocate: calls whose own context is done when they are located while their region is
+// unavailable (done before SendBatch: round 0; cancelled at the wait of round 0 next to a retryable
+// answer: retry round) - alone, next to calls that are located, and next to calls of unavailable
+// regions whose own context is alive (the batch context is cancelled / the client closed there),
+// before and after them in batch order.
+func genOwnLocate(cases *[]*bCase) {
+	for n := 1; n <= 3; n++ {
+		for dead := 1; dead < 1<<n; dead++ {
+			for blocked := 1; blocked < 1<<n; blocked++ {
+				if dead&blocked == 0 {
+					continue
+				}
+				for _, lf := range []byte{'C', 'L'} {
+					if blocked&^dead == 0 && lf == 'L' {
+						continue // no call that could trigger the failure
+					}
+					for _, first := range []byte{'k', 'n', 'f', 'r'} {
+						c := simpleCase(n, n, 1+n%2)
+						rd := c.addRound()
+						rd.locFail = lf
+						rd2 := c.addRound()
+						for i := 0; i < n; i++ {
+							if blocked&(1<<i) != 0 {
+								rd.regSrv[i] = -1
+							}
+							if dead&(1<<i) != 0 {
+								c.ownPre[i] = true
+								// located all the same (region available): no answer, or one that is used
+								if i%2 == 0 {
+									rd.ans[i] = bAns{kind: 'o'}
+								} else {
+									rd.ans[i] = bAns{kind: 'k'}
+								}
+								rd2.ans[i] = bAns{kind: 'o'}
+							} else {
+								rd.ans[i] = bAns{kind: first}
+								rd2.ans[i] = bAns{kind: 'k'}
+							}
+						}
+						*cases = append(*cases, c)
+					}
+				}
+			}
+		}
+	}
+	// retry rounds: the own context is cancelled at the wait of round 0, the answer is retryable,
+	// and the region is unavailable when the call is located again
+	for _, k0 := range []byte{'n', 'r', 's'} {
+		for _, k1 := range []byte{'k', 'n', 'f', 'r', 's'} {
+			for blk := 1; blk < 4; blk++ {
+				for _, lf := range []byte{'C', 'L'} {
+					for _, swap := range []bool{false, true} {
+						for nSrv := 1; nSrv <= 2; nSrv++ {
+							d, l := 0, 1 // d: the call that gives up, l: the other one
+							if swap {
+								d, l = 1, 0
+							}
+							if blk&(1<<l) == 0 && lf == 'L' {
+								continue
+							}
+							c := simpleCase(2, 2, nSrv)
+							rd := c.addRound()
+							rd.ans[d] = bAns{kind: k0, own: true}
+							rd.ans[l] = bAns{kind: k1}
+							rd2 := c.addRound()
+							rd2.locFail = lf
+							for g := 0; g < 2; g++ {
+								if blk&(1<<g) != 0 {
+									rd2.regSrv[g] = -1
+								}
+							}
+							rd2.ans[d] = bAns{kind: 'o'}
+							rd2.ans[l] = bAns{kind: 'k'}
+							*cases = append(*cases, c)
+						}
+					}
+				}
+			}
+		}
+	}
+	// three calls on three regions: the middle one succeeds, the outer ones are retried; one of them
+	// has given up by then and its region is unavailable, the other one is located / is not
+	for _, lf := range []byte{'C', 'L'} {
+		for d := 0; d <= 2; d += 2 {
+			for _, otherBlocked := range []bool{false, true} {
+				c := simpleCase(3, 3, 2)
+				rd := c.addRound()
+				rd.ans[0], rd.ans[1], rd.ans[2] = bAns{kind: 'n'}, bAns{kind: 'k'}, bAns{kind: 's'}
+				rd.ans[d].own = true
+				rd2 := c.addRound()
+				rd2.locFail = lf
+				rd2.regSrv[d] = -1
+				if otherBlocked {
+					rd2.regSrv[2-d] = -1
+				}
+				rd2.ans[d] = bAns{kind: 'o'}
+				rd2.ans[2-d] = bAns{kind: 'k'}
+				*cases = append(*cases, c)
+			}
+		}
+	}
+}
+
 // genInvalid: batches of 1..maxN calls with invalid entries (other table, repeated call,
 // non-batchable call) at every position, alone and in pairs.
 func genInvalid(maxN int, cases *[]*bCase) {
@@ -1143,6 +1332,12 @@ func genRandom(rng *RNG, count, maxRounds int, lateAnswers bool, cases *[]*bCase
 		rounds := 1 + rng.Intn(maxRounds)
 		ended := make([]bool, n)
 		ownUsed := false
+		if rng.Intn(10) == 0 { // own contexts already done (whatever answer there is is used)
+			for k := 1 + rng.Intn(2); k > 0; k-- {
+				c.ownPre[rng.Intn(n)] = true
+			}
+			ownUsed = true
+		}
 		for r := 0; r < rounds; r++ {
 			rd := c.addRound()
 			for g := range rd.regSrv {
@@ -1161,8 +1356,12 @@ func genRandom(rng *RNG, count, maxRounds int, lateAnswers bool, cases *[]*bCase
 					rd.ans[id] = bAns{kind: 'f'}
 				case x < 60:
 					rd.ans[id] = bAns{kind: 'r'}
-				case x < 78:
+				case x < 76:
 					rd.ans[id] = bAns{kind: 'n'}
+				case x < 78:
+					// retried although its own context is cancelled at this wait
+					rd.ans[id] = bAns{kind: 'n', own: true}
+					ownUsed = true
 				case x < 94:
 					rd.ans[id] = bAns{kind: 's'}
 				case x < 97:
@@ -1174,6 +1373,9 @@ func genRandom(rng *RNG, count, maxRounds int, lateAnswers bool, cases *[]*bCase
 				}
 				if last && rng.Intn(6) == 0 {
 					rd.ans[id] = bAns{kind: 'f'}
+				}
+				if c.ownPre[id] && r > 0 && !last && rng.Intn(2) == 0 {
+					rd.ans[id] = bAns{kind: 'o'}
 				}
 				if !isRetryKind(rd.ans[id].kind) {
 					ended[id] = true
@@ -1260,6 +1462,7 @@ func runBatchProp(prop, tier string, seed uint64, out *Out) {
 		}
 		genOwnCtx(&cases)
 		genLocate(&cases)
+		genOwnLocate(&cases)
 		genBackoffLadder(&cases)
 		genBlocked(&cases)
 		genInvalid(3, &cases)
@@ -1278,6 +1481,7 @@ func runBatchProp(prop, tier string, seed uint64, out *Out) {
 			genExhaustiveScripts(3, 3, &cases)
 		}
 		genLocate(&cases)
+		genOwnLocate(&cases)
 		genBackoffLadder(&cases)
 		if quick {
 			genRandom(rng, 30000, 4, false, &cases)
